@@ -1,6 +1,9 @@
 package vsched
 
 import (
+	"fmt"
+	"reflect"
+	"sort"
 	"unsafe"
 )
 
@@ -18,11 +21,30 @@ func RecvCase[T any](ch <-chan T) Case {
 	return Case{ptr: chanPtr(ch), length: func() int { return len(ch) }, capa: cap(ch)}
 }
 
-func SendCase[T any](ch chan<- T, v T) Case {
+// Nil stands for an untyped nil send value in rewritten code.
+type Nil struct{}
+
+// conv converts a send value to the channel's element type (identity in the
+// common case; interface conversion or constant conversion otherwise).
+func conv[T any](v interface{}) T {
+	if v == nil {
+		return zero[T]()
+	}
+	if _, isNil := v.(Nil); isNil {
+		return zero[T]()
+	}
+	if t, ok := v.(T); ok {
+		return t
+	}
+	rt := reflect.TypeOf((*T)(nil)).Elem()
+	return reflect.ValueOf(v).Convert(rt).Interface().(T)
+}
+
+func SendCase[T any, V any](ch chan<- T, v V) Case {
 	if ch == nil {
 		return Case{send: true}
 	}
-	return Case{send: true, ptr: *(*unsafe.Pointer)(unsafe.Pointer(&ch)), length: func() int { return len(ch) }, capa: cap(ch), val: v}
+	return Case{send: true, ptr: *(*unsafe.Pointer)(unsafe.Pointer(&ch)), length: func() int { return len(ch) }, capa: cap(ch), val: conv[T](v)}
 }
 
 // Select is the scheduling point of a select statement; it returns the index of
@@ -49,10 +71,7 @@ func Select(hasDefault bool, cases ...Case) int {
 func zero[T any]() (z T) { return }
 
 func fromSlot[T any](v interface{}) T {
-	if v == nil {
-		return zero[T]()
-	}
-	return v.(T)
+	return conv[T](v)
 }
 
 // SelRecv completes a receive case chosen by Select.
@@ -85,8 +104,9 @@ func SelRecv2[T any](ch <-chan T) (T, bool) {
 }
 
 // SelSend completes a send case chosen by Select.
-func SelSend[T any](ch chan<- T, v T) {
+func SelSend[T any, V any](ch chan<- T, v0 V) {
 	s := S
+	v := conv[T](v0)
 	if s == nil {
 		ch <- v
 		return
@@ -132,8 +152,9 @@ func Recv2[T any](ch <-chan T) (T, bool) {
 }
 
 // Send is `ch <- v`.
-func Send[T any](ch chan<- T, v T) {
+func Send[T any, V any](ch chan<- T, v0 V) {
 	s := S
+	v := conv[T](v0)
 	if s == nil {
 		ch <- v
 		return
@@ -148,7 +169,7 @@ func Send[T any](ch chan<- T, v T) {
 }
 
 // Close is `close(ch)`.
-func Close[T any](ch chan T) {
+func Close[T any](ch chan<- T) {
 	s := S
 	if s == nil {
 		close(ch)
@@ -158,7 +179,7 @@ func Close[T any](ch chan T) {
 		return
 	}
 	Point("close", nil)
-	s.closeChan(chanPtr((<-chan T)(ch)), ch, func() { close(ch) })
+	s.closeChan(*(*unsafe.Pointer)(unsafe.Pointer(&ch)), ch, func() { close(ch) })
 }
 
 func (s *Sched) closeChan(p unsafe.Pointer, keep interface{}, native func()) {
@@ -174,7 +195,7 @@ func (s *Sched) closeChan(p unsafe.Pointer, keep interface{}, native func()) {
 }
 
 // CloseNoPoint closes a channel from scheduler-owned code (timers, contexts).
-func CloseNoPoint[T any](ch chan T) {
+func CloseNoPoint[T any](ch chan<- T) {
 	s := S
 	if s == nil {
 		close(ch)
@@ -183,7 +204,7 @@ func CloseNoPoint[T any](ch chan T) {
 	if s.aborting {
 		return
 	}
-	s.closeChan(chanPtr((<-chan T)(ch)), ch, func() { close(ch) })
+	s.closeChan(*(*unsafe.Pointer)(unsafe.Pointer(&ch)), ch, func() { close(ch) })
 }
 
 // IsClosed reports whether the scheduler has seen ch closed.
@@ -192,4 +213,45 @@ func IsClosed[T any](ch <-chan T) bool {
 		return false
 	}
 	return S.closed[chanPtr(ch)]
+}
+
+// SortedKeys returns the keys of m in a deterministic order.
+func SortedKeys[K comparable, V any](m map[K]V) []K {
+	keys := make([]K, 0, len(m))
+	for k := range m {
+		keys = append(keys, k)
+	}
+	sort.Slice(keys, func(i, j int) bool { return lessAny(keys[i], keys[j]) })
+	return keys
+}
+
+func lessAny(a, b interface{}) bool {
+	switch x := a.(type) {
+	case string:
+		return x < b.(string)
+	case int:
+		return x < b.(int)
+	case int32:
+		return x < b.(int32)
+	case int64:
+		return x < b.(int64)
+	case uint64:
+		return x < b.(uint64)
+	case uint32:
+		return x < b.(uint32)
+	}
+	va, vb := reflect.ValueOf(a), reflect.ValueOf(b)
+	switch va.Kind() {
+	case reflect.String:
+		return va.String() < vb.String()
+	case reflect.Int, reflect.Int8, reflect.Int16, reflect.Int32, reflect.Int64:
+		return va.Int() < vb.Int()
+	case reflect.Uint, reflect.Uint8, reflect.Uint16, reflect.Uint32, reflect.Uint64:
+		return va.Uint() < vb.Uint()
+	}
+	switch va.Kind() {
+	case reflect.Ptr, reflect.Chan, reflect.Func, reflect.Interface, reflect.UnsafePointer, reflect.Map, reflect.Slice:
+		panic(fmt.Sprintf("vsched.SortedKeys: map key type %T has no deterministic order", a))
+	}
+	return fmt.Sprintf("%#v", a) < fmt.Sprintf("%#v", b)
 }
